@@ -509,7 +509,10 @@ def union_discriminant(ctx, facts, cfg):
         n += 1
         ok_u = not acc["unbounded_spsc_queue"] or (bool(ub) and not g.exists_path([g.entry_node], acc["unbounded_spsc_queue"], avoid_edges=ub))
         # the bounded arm: on 'is bounded', or on 'is not unbounded' (two queue kinds)
-        ok_b = not acc["bounded_spsc_queue"] or (bool(bb + ub) and not g.exists_path([g.entry_node], acc["bounded_spsc_queue"], avoid_edges=bb + [(b, other(t)) for (b, t) in ub]))
+        # (when the function tests 'has a bounded queue' that test decides; otherwise 'not unbounded' does)
+        ok_b = not acc["bounded_spsc_queue"] or \
+            (bool(bb) and not g.exists_path([g.entry_node], acc["bounded_spsc_queue"], avoid_edges=bb)) or \
+            (not bb and bool(ub) and not g.exists_path([g.entry_node], acc["bounded_spsc_queue"], avoid_edges=[(b, other(t)) for (b, t) in ub]))
         ctx.ob("C03.R7u", "%s:queue-union-arm" % short(f.name).replace("quill::detail::", "")[:110], ok_u and ok_b,
                "the unbounded arm of the thread context's queue union is touched only on the 'has an unbounded queue' outcome and the "
                "bounded arm only on 'has a bounded queue' / 'not unbounded' (unbounded ok: %s, bounded ok: %s)" % (ok_u, ok_b), fn=f)
